@@ -239,6 +239,23 @@ func (x *xl) simple(s ast.Stmt) ([]string, error) {
 		return lines, nil
 	case *ast.ExprStmt:
 		if c, ok := y.X.(*ast.CallExpr); ok {
+			if id, ok := c.Fun.(*ast.Ident); ok && len(c.Args) == 2 {
+				// copy(dst, src) on a local slice variable: dst := Go.copyL dst src (the count is dropped)
+				if b, ok := x.p.info.Uses[id].(*types.Builtin); ok && b.Name() == "copy" {
+					if _, ok := x.typeOf(c.Args[1]).Underlying().(*types.Slice); !ok {
+						return nil, x.errf(s, "copy from a string")
+					}
+					n, _, err := x.lhsName(c.Args[0])
+					if err != nil {
+						return nil, err
+					}
+					bs, v, err := x.expr(c.Args[1])
+					if err != nil {
+						return nil, err
+					}
+					return append(bs, fmt.Sprintf("let %s := (Go.copyL %s %s)", n, n, v)), nil
+				}
+			}
 			if sel, ok := c.Fun.(*ast.SelectorExpr); ok {
 				if id, ok := sel.X.(*ast.Ident); ok && isBuilder(x.typeOf(sel.X)) {
 					n, _, err := x.lhsName(id)
@@ -252,7 +269,7 @@ func (x *xl) simple(s ast.Stmt) ([]string, error) {
 							return nil, err
 						}
 						return append(b, fmt.Sprintf("let %s := (%s ++ %s)", n, n, v)), nil
-					case sel.Sel.Name == "WriteRune" && len(c.Args) == 1:
+					case (sel.Sel.Name == "WriteRune" || sel.Sel.Name == "WriteByte") && len(c.Args) == 1: // WriteByte: an ASCII byte is a character
 						b, v, err := x.expr(c.Args[0])
 						if err != nil {
 							return nil, err
@@ -591,6 +608,11 @@ func (x *xl) loopVars(nodes []ast.Node, before token.Pos, extraOutside map[types
 				if c, ok := y.X.(*ast.CallExpr); ok {
 					if sel, ok := c.Fun.(*ast.SelectorExpr); ok && isBuilder(x.typeOf(sel.X)) {
 						mark(sel.X)
+					}
+					if id, ok := c.Fun.(*ast.Ident); ok && len(c.Args) == 2 {
+						if b, ok := info.Uses[id].(*types.Builtin); ok && b.Name() == "copy" {
+							mark(c.Args[0])
+						}
 					}
 					if sel, ok := c.Fun.(*ast.SelectorExpr); ok && x.w.dom && domKind(x.typeOf(sel.X)) != "" {
 						mark(sel.X) // statement call of a builder method
@@ -1029,7 +1051,7 @@ func (w *xlWorld) translateFunc(repo string, p *xlPkg, f *xlFunc, fd *ast.FuncDe
 		w.dom = false
 		defer func() { w.dom = saved }()
 	}
-	x.monadic = domMode || x.scanMonadic(fd.Body)
+	x.monadic = domMode || x.scanMonadic(fd.Body) || f.Rec
 	null := map[string]bool{}
 	for _, n := range f.Nullable {
 		null[n] = true
@@ -1138,6 +1160,15 @@ func (w *xlWorld) translateFunc(repo string, p *xlPkg, f *xlFunc, fd *ast.FuncDe
 	if err != nil {
 		return "", err
 	}
+	if f.Rec {
+		// the self-call `rec_` is captured by loops like an opaque parameter (translate_rec.go)
+		var ts []string
+		for _, p := range params {
+			ts = append(ts, p.typ)
+		}
+		x.used[xlRecName] = true
+		x.opaquePs = append(x.opaquePs, xlParam{xlRecName, "(" + strings.Join(append(ts, "Go.Res "+retT), " → ") + ")"})
+	}
 	// recursion group
 	_, isRec := w.recs[fn]
 	if isRec {
@@ -1184,6 +1215,9 @@ func (w *xlWorld) translateFunc(repo string, p *xlPkg, f *xlFunc, fd *ast.FuncDe
 			return "", fmt.Errorf("opaque callee %s is not called", o)
 		}
 	}
+	if f.Rec {
+		return x.emitRec(fn, params, retT, body)
+	}
 	pre := append(append([]xlParam{}, x.opaquePs...), x.flatPs...)
 	all := append(append([]xlParam{}, pre...), params...)
 	var b strings.Builder
@@ -1210,6 +1244,10 @@ func (w *xlWorld) translateFunc(repo string, p *xlPkg, f *xlFunc, fd *ast.FuncDe
 		done.nparams = -1 // cannot be called from code translated by translate.go alone
 	}
 	w.done[fn] = done
+	if f.Flatten && len(x.opaquePs) == 0 {
+		// callable by a flattened method on the same receiver (translate_rec.go)
+		done.flatKeys, done.flatTypes = x.flatKeyList()
+	}
 	if !isRec {
 		b.WriteString(doc)
 		fmt.Fprintf(&b, "def %s", f.Lean)
